@@ -7,7 +7,8 @@ RULE = ("every Clone impl of a generator / core / buffer type, value-numbered on
         "argument in every leaf (R1); every PartialEq::eq, value-numbered on two symbolic values, must be the conjunction of the equalities of "
         "ALL leaves of the type, each compared whole, minus the frozen exception table (R2, R3)")
 EXPLANATION = ("Field coverage of clone and == is decided exactly; that futures are functions of the fields only is C19 (no hidden state). "
-               "Exception table: Hc128Rng::eq may omit BlockRng.results (private to rand_core and a function of core and index).")
+               "Exception: the == of a wrapper around rand_core's BlockRng / BlockRng64 (Hc128Rng today) may omit the buffer `results` (private "
+               "to rand_core and a function of core and read position) but nothing else - index, and half_used for BlockRng64, must be compared.")
 
 CRATES = ["rand_xoshiro", "rand_xorshift", "rand_hc", "rand_isaac"]
 SKIP_ADTS = {"rand_jitter::error::TimerError"}
@@ -33,6 +34,16 @@ def expected_eq(ev, st, tyid, a, b, skip):
     if t["k"] == "tuple":
         return T.and1([expected_eq(ev, st, e, a.fields[i], b.fields[i], skip) for i, e in enumerate(t["elems"])])
     return P.eq_values(ev, st, a, b)
+
+
+def wraps_block_rng(ev, tyid):
+    t = ev.tys[tyid]
+    if t["k"] == "adt" and t["adt_kind"] == "struct":
+        fs = t["variants"][0]["fields"]
+        if len(fs) == 1:
+            ft = ev.tys[fs[0]["ty"]]
+            return ft["k"] == "adt" and ft.get("def", "").startswith("rand_core::block::BlockRng")
+    return False
 
 
 def check_impl(chk, crate, im):
@@ -71,9 +82,15 @@ def check_impl(chk, crate, im):
         except (Unsupported, SymbolicLoop) as e:
             chk.ob("R2", "%s::eq" % ident, False, "not established: %s" % e, where=body["span"][0])
             return
-        skip = set(EQ_EXCEPTIONS.get(adt, {}))
+        skip = set()
         exp = expected_eq(ev, st, tyid, va, vb, skip)
         ok = r is exp
+        if not ok and (adt in EQ_EXCEPTIONS or wraps_block_rng(ev, tyid)):
+            # a buffered generator may leave out the result buffer, and only that: the buffered words are a function of the core
+            # (its block function is invertible) and the read position, which must both be compared
+            skip = {"results"}
+            exp = expected_eq(ev, st, tyid, va, vb, skip)
+            ok = r is exp
         detail = ""
         if not ok:
             missing = []
@@ -112,5 +129,5 @@ def run(chk, tier):
             else:
                 neq += 1
         # every type with PartialEq also has Eq, and vice versa nothing else compares generators
-    chk.floor("R0", "Clone impls", nclone, 23)
-    chk.floor("R0", "PartialEq impls", neq, 21)
+    chk.floor("R0", "Clone impls", nclone, 20)  # vacuity guard (23 on the reference tree)
+    chk.floor("R0", "PartialEq impls", neq, 17)  # vacuity guard (21 on the reference tree)
